@@ -105,6 +105,14 @@ def bytes (q : PQ) (n : Nat) : RdOut × PQ :=
   | (.short bs, adv, id) => (.short (padTo n bs), { q with ip := q.ip + adv, id := id })
   | (.panic, adv, id) => (.panic, { q with ip := q.ip + adv, id := id })
 
+/-- `Read(p)` with `len(p) = n`: `copy(p, bs)` of the slice `Bytes(n)` returns, so the caller's
+buffer holds exactly that slice (its length is always `n`). Returns (count, buffer contents). -/
+def read (q : PQ) (n : Nat) : RdOut × Nat × PQ :=
+  match q.bytes n with
+  | (.ok bs, q') => (.ok bs, bs.length, q')
+  | (.short bs, q') => (.short bs, bs.length, q')
+  | (.panic, q') => (.panic, 0, q')
+
 inductive WrOut where
   | ok
   | panic
@@ -123,33 +131,39 @@ def copyInto (dst : Bytes) (at_ : Nat) (src : Bytes) : Bytes :=
 def setData (queue : List Packet) (i : Nat) (f : Bytes → Bytes) : List Packet :=
   queue.modify i (fun p => { p with data := f p.data })
 
+/-- One iteration of the loop of `WriteBytes` (`bs` non-empty): the new queue and the number of
+bytes written by this iteration; `none` = Go panics. -/
+def writeIter (q : PQ) (bs : Bytes) (psize : Nat) : Option (PQ × Nat) :=
+  -- "Add new packet if the index points to no packet"
+  let q := if q.ip == q.queue.length then { q with queue := q.queue ++ [newPacket psize] } else q
+  match q.queue[q.ip]? with
+  | none => none                                   -- index out of range
+  | some cur =>
+    let free : Int := (cur.hdr.length : Int) - 8 - q.id
+    if free == 0 then
+      -- "No free bytes, add a new packet": the new packet is appended at the END of the queue and
+      -- written to, while the packet index is merely incremented.
+      let ci := q.queue.length
+      let q := { q with queue := q.queue ++ [newPacket psize], ip := q.ip + 1, id := 0 }
+      let k := min (psize - 8) bs.length
+      some ({ q with queue := setData q.queue ci (fun d => copyInto d 0 (bs.take k)), id := k }, k)
+    else
+      let free := if free > bs.length then (bs.length : Int) else free
+      if free < 0 then none                          -- bs[off:off+free] with free < 0
+      else if q.id > cur.data.length then none       -- Data[id:] out of range
+      else
+        let k := free.toNat
+        some ({ q with queue := setData q.queue q.ip (fun d => copyInto d q.id (bs.take k)),
+                       id := q.id + k }, k)
+
 /-- The loop of `WriteBytes`. -/
 def writeLoop : (fuel : Nat) → PQ → Bytes → (psize : Nat) → WrOut × PQ
   | 0, q, bs, _ => if bs.isEmpty then (.ok, q) else (.fuel, q)
   | fuel + 1, q, bs, psize =>
     if bs.isEmpty then (.ok, q) else
-    -- "Add new packet if the index points to no packet"
-    let q := if q.ip == q.queue.length then { q with queue := q.queue ++ [newPacket psize] } else q
-    match q.queue[q.ip]? with
+    match writeIter q bs psize with
     | none => (.panic, q)
-    | some cur =>
-      let free : Int := (cur.hdr.length : Int) - 8 - q.id
-      -- (cursor index of the packet written to, queue, position, free bytes)
-      let (ci, q, free) :=
-        if free == 0 then
-          (q.queue.length, { q with queue := q.queue ++ [newPacket psize], ip := q.ip + 1, id := 0 },
-            ((psize : Int) - 8))
-        else (q.ip, q, free)
-      let free := if free > bs.length then (bs.length : Int) else free
-      if free < 0 then (.panic, q) else
-      let k := free.toNat
-      match q.queue[ci]? with
-      | none => (.panic, q)
-      | some cp =>
-        if q.id > cp.data.length then (.panic, q) else
-        let q := { q with queue := setData q.queue ci (fun d => copyInto d q.id (bs.take k)),
-                          id := q.id + k }
-        writeLoop fuel q (bs.drop k) psize
+    | some (q', k) => writeLoop fuel q' (bs.drop k) psize
 
 def writeBytes (q : PQ) (bs : Bytes) (psize : Nat) : WrOut × PQ :=
   if bs.isEmpty then (.ok, q)
